@@ -134,6 +134,12 @@ def run(ctx):
                 bad.append(("unsorted-ok", "list_sorted_log_files can return Ok without sorting", None))
         rl = F.fn("WalRecovery::replay_log_file")
         one(rl, r"MemTable::insert$")
+        nxs = [c_ for c_ in r.find_calls(r"Iterator>::next$") if r.can_reach(c_.bb, rp.bb) and r.can_reach(rp.bb, c_.bb)]
+        if not nxs:
+            raise AnchorMissing("loop over the WAL files in recover")
+        w = skipped_iteration(r, nxs[0], [rp.bb])
+        if w:
+            bad.append(("wal-file-skipped", "recovery can skip a WAL file without replaying it", w))
         inst.sites += [sp(r, lst.bb), sp(r, rp.bb)]
         return bad
     ctx.run("C01.c", "K1 DOM", "ShardContext::new / WalRecovery::recover", "startup always replays the WAL, in sorted file order, into the memtable", c)
